@@ -598,9 +598,11 @@ class Check:
               "coverage": self.cov, "assumptions": self.assumptions, "wall_s": round(wall, 2),
               "violations": len(self.violations)}
         self.cov["known_findings_hit"] = self.known_hits
-        os.makedirs(os.path.join(VERIF, "evidence"), exist_ok=True)
-        with open(os.path.join(VERIF, "evidence", self.pid + ".json"), "w") as f:
-            json.dump(ev, f, indent=1, default=str)
+        if os.path.realpath(REPO) == "/repo":
+            # runs against a scratch copy of the repository (seeded changes) do not produce evidence
+            os.makedirs(os.path.join(VERIF, "evidence"), exist_ok=True)
+            with open(os.path.join(VERIF, "evidence", self.pid + ".json"), "w") as f:
+                json.dump(ev, f, indent=1, default=str)
         self.rd.cleanup()
         if self.violations:
             seen = set()
